@@ -140,6 +140,10 @@ def fam_alloca(rnd, tier):
               "  lsh v, v, 1", "  mov i64:(p), v", "  bf L_first, i", "  xor r, r, i64:(prev)", "L_first:", "  mov prev, p", "  add i, i, 1", "  blt L_loop, i, 2", "  or r, r, i64:(p)", "  ret r", "  endfunc"]
     f.module("al_loop", g_loop + ["f: func i64, i64:n, i64:x, i64:y", "  local i64:t, i64:q, i64:u", "  alloca q, 8", "  mov i64:(q), y", "  call pg, g, t, n, x", "  call pg, g, u, n, t",
                                   "  xor t, t, u", "  xor t, t, i64:(q)", "  ret t", "  endfunc"], ["f n=set8,13"], ["f calls=0"])
+    # the same with a CONSTANT size: an alloca after a label is not the callee's top alloca whatever its size (each iteration a fresh block)
+    g_loopc = [l.replace("alloca p, n", "alloca p, 8") for l in g_loop]
+    f.module("al_loopc", g_loopc + ["f: func i64, i64:n, i64:x, i64:y", "  local i64:t, i64:q, i64:u", "  alloca q, 8", "  mov i64:(q), y", "  call pg, g, t, n, x", "  inline pg, g, u, n, t",
+                                    "  xor t, t, u", "  xor t, t, i64:(q)", "  ret t", "  endfunc"], ["f n=const8", "g n=const8"], ["f calls=0"])
     # nested: a (alloca) calls b (alloca); both inlined into f which has its own; sequential second call reuses the space
     nest = ["pa: proto i64, i64:v", "b: func i64, i64:v", "  local i64:p, i64:r", "  alloca p, 8", "  mov i64:(p), v", "  lsh v, v, 1", "  mov r, i64:(p)", "  xor r, r, v", "  ret r", "  endfunc",
             "a: func i64, i64:v", "  local i64:p, i64:r", "  alloca p, %d" % rnd.choice([1, 2, 4, 8, 16]), "  mov u8:(p), v", "  call pa, b, r, v", "  or r, r, u8:(p)", "  ret r", "  endfunc",
@@ -268,6 +272,15 @@ def fam_control(rnd, tier):
     f.module("ct_fprev", ["f: func i64, d:x, d:y", "  local i64:r", "  mov r, 0", "  dblt L1, x, y", "  jmp L2", "L1:", "  or r, r, 1", "L2:", "  dbne L3, x, x", "  or r, r, 2", "L3:", "  ret r", "  endfunc"], ["f"])
     # one fully symbolic integer compare-branch through the reversal (all 64-bit values of both operands)
     f.module("ct_revsym", ["f: func i64, i64:a, i64:b"] + ["  blt L1, a, b", "  jmp L2", "L1:", T, "L2:", "  ret b"] + ["  endfunc"], ["f"])
+    # every integer compare-branch code through the reversal rewrite, both operands fully symbolic (MIR_reverse_branch_code is a
+    # 30-way table: one wrong entry is one obligation here)
+    for code in ("bt", "bts", "bf", "bfs"):
+        f.module("ct_rv_" + code, ["f: func i64, i64:a, i64:b", "  %s L1, a" % code, "  jmp L2", "L1:", T, "L2:", "  ret b", "  endfunc"], ["f"])
+    for base in ("beq", "bne", "blt", "ublt", "ble", "uble", "bgt", "ubgt", "bge", "ubge"):
+        for code in (base, base + "s"):
+            f.module("ct_rv_" + code, ["f: func i64, i64:a, i64:b, i64:c", "  %s L1, a, c" % code, "  jmp L2", "L1:", T, "L2:", "  ret b", "  endfunc"], ["f"])
+    for ov, br in (("addo", "bo"), ("addo", "bno"), ("subo", "ubo"), ("subo", "ubno"), ("addos", "bo"), ("subos", "ubno")):
+        f.module("ct_rv_%s_%s" % (ov, br), ["f: func i64, i64:a, i64:b, i64:c", "  %s a, a, c" % ov, "  %s L1" % br, "  jmp L2", "L1:", T, "L2:", "  ret b", "  endfunc"], ["f"])
     # the same shapes inside a callee that gets inlined (cold code after ret is moved to the end of the caller)
     body = ["pg: proto i64, i64:a, i64:b", "g: func i64, i64:a, i64:b", "  bt L1, a", "  jmp L2", "L3:", "  xor b, b, 100", "  jmp L4", "L1:", "  or b, b, 1", "  bgt L3, a, 1", "L2:", "  xor b, b, 3", "L4:", "  ret b",
             "L_cold:", "  xor b, b, 1000", "  jmp L4", "  endfunc",
